@@ -22,6 +22,10 @@ package crhttp
 //@   requires P1: optsKnown(opts)
 //@   assigns new mem(crhttp.dnssl), new mem(crhttp.prefix), new mem(crhttp.rdnss), new mem(crhttp.route), new mem(crhttp.pref64), new mem(string)
 //@   loop 1 invariant L1 [C17]: 0 <= rangeindex + 1 && rangeindex + 1 <= len(opts)
+// every multi-valued option kind is rendered once per option of that kind (no
+// option of the RA is dropped from or duplicated in the debug API's answer)
+//@   loop 1 invariant L3 [C17]: len(out.PREF64) == countTag(arr(opts), rangeindex1 + 1, tagOf("*ndp.PREF64")) && len(out.DNSSL) == countTag(arr(opts), rangeindex1 + 1, tagOf("*ndp.DNSSearchList")) && len(out.Prefixes) == countTag(arr(opts), rangeindex1 + 1, tagOf("*ndp.PrefixInformation")) && len(out.RDNSS) == countTag(arr(opts), rangeindex1 + 1, tagOf("*ndp.RecursiveDNSServer")) && len(out.Routes) == countTag(arr(opts), rangeindex1 + 1, tagOf("*ndp.RouteInformation"))
+//@   ensures E1 [C17]: len(result.PREF64) == countTag(arr(opts), len(opts), tagOf("*ndp.PREF64")) && len(result.DNSSL) == countTag(arr(opts), len(opts), tagOf("*ndp.DNSSearchList")) && len(result.Prefixes) == countTag(arr(opts), len(opts), tagOf("*ndp.PrefixInformation")) && len(result.RDNSS) == countTag(arr(opts), len(opts), tagOf("*ndp.RecursiveDNSServer")) && len(result.Routes) == countTag(arr(opts), len(opts), tagOf("*ndp.RouteInformation"))
 //@   loop 2 invariant L2 [C17]: 0 <= rangeindex2 + 1 && rangeindex2 + 1 <= len(ranged(2)) && 0 <= rangeindex1 + 1 && rangeindex1 + 1 < len(opts)
 //@   opt safety [C17]
 //@   opt frame [C17]
